@@ -26,6 +26,8 @@ CLAIMS = {
          'DESIGN.md §7 C16'),
  'C17': ('proof over regenerated definitions', 'Lean 4 theorems about every key constructor/decoder regenerated from x/*/types/keys.go (decode∘encode, injectivity, prefix freedom, prefix isolation, queue order, scan range), time-key order by a complete calendar table (decide +kernel over the 400-year cycle), bech32 round trip and cross-role rejection; probes against the real functions',
          'DESIGN.md §7 C17'),
+ 'C02': ('proof + correspondence', 'Lean 4 invariant proof over every history from every genesis (EscrowSplit): each account\'s escrow record = sum over its live node subscriptions of the unsettled part (per gigabyte: deposit - ceil(price*used/10^9) with price = deposit/gigabytes; per hour: hourly price x hours left; absent record = empty); consequences: charged within [0, deposit], at removal refund = unsettled part so deposit = charged + refunded with the exact change of every escrow record and bank balance, every settlement / payout moves exactly the drop of the unsettled part to node + fee collector, and only the subscriber\'s own record changes; tied by lock-step execution (sessions profile: several settled sessions per subscription) and the escrowSplit monitor on implementation states',
+         'DESIGN.md §7 C02'),
  'C03': ('proof of the negation on this tree + partial monitors + correspondence', 'Lean 4: hooks_never_halt is stated at full strength and REFUTED on the current tree by a machine-checked reachable witness (halt_by_delay_change: governance lowers the subscription delay while a session winds down -> EndBlock panics; known finding F6, reproduced on the real app); bandwidth_report_bounded shows accepted reports cannot overflow (after fix F2). Every generated history is checked for hook panics on the real app and for the lifecycle-coupling monitor on implementation states; halts other than the listed findings are violations',
          'DESIGN.md §7 C03'),
  'C04': ('proof + correspondence', 'Lean 4: lifecycle coupling LifeInv is inductive over every operation under the delay coupling D7; complete case analyses of one operation on a session / subscription / node (only forward, removed only when pending and due, demoted only by the owner / own subscription / deadline), pending period = exactly the configured delay, timeliness after every EndBlock (no deadline <= block time remains), settled exactly once (removal is permanent), hourly payouts at most once per due hour and never early; all lifted to every reachable state through the assembled invariant StructInv; tied by lock-step execution with deadline-directed block times and the deadlinesFuture / lifecycle monitors on implementation states',
@@ -36,7 +38,7 @@ CLAIMS = {
          'DESIGN.md §7 C07'),
  'C08': ('proof + correspondence', 'Lean 4: accepted => admission conditions (node/plan active at that moment, quantity within governance limits, active subscription, serving node, unexhausted allocation, no other active session of that holder, lease present for plan sessions, valid proof signature when enabled) for every accepting handler, under the key-consistency invariant KeysOK proved for all histories; tied by lock-step execution',
          'DESIGN.md §7 C08'),
- 'C09': ('proof + correspondence', 'Lean 4: two-way agreement of every secondary index and queue with the primary records (NodeIdx, SessIdx, SubIdx, RecInv) is inductive over every operation and holds in every reachable state; no duplicate keys; every queue entry points at a live record with that deadline and every deadline is queued; a removed record is in no index of the same state; listings are tied by lock-step execution of all 20 paged queries and 9 getters on generated states (incl. addresses in prefix relation) and the index monitors on implementation states loaded into the model',
+ 'C09': ('proof + correspondence', 'Lean 4: two-way agreement of every secondary index and queue with the primary records (NodeIdx, SessIdx, SubIdx, RecInv) is inductive over every operation and holds in every reachable state; no duplicate keys; every queue entry points at a live record with that deadline and every deadline is queued; a removed record is in no index of the same state; C09Listings: for each of the 15 filtered listing handlers of the query model the store view iterated is exactly the index entries of the requested attribute (prefix isolation incl. addresses in prefix relation), every callback lookup succeeds (never an internal error), the records listed are exactly the records with the attribute, each once, and key/offset paging enumerates exactly them (listings_exact, runQuery_never_internal; hypothesis CountersOK: fewer than 2^64 ids issued); also tied by lock-step execution of all 20 paged queries and 9 getters on generated states (incl. addresses in prefix relation) and the index monitors on implementation states loaded into the model',
          'DESIGN.md §7 C09'),
  'C12': ('proof of a partial statement + witnesses of the failing part + correspondence', 'Lean 4 model of Export/Validate/InitGenesis of all hub modules: roundtrip_partial (for GenWF states the export validates and re-imports to a state that agrees on every surviving table), continuation_partial; the full statement is FALSE on this tree: machine-checked reachable witnesses subscriptions_lost_by_roundtrip (F5), session_counter_reissued (F9), small_swap_invalidates_export (F4) - known findings reproduced on the real app; export/reimport run on the real app at block boundaries of generated histories and are compared with the model and with the stored state',
          'DESIGN.md §7 C12'),
@@ -44,7 +46,6 @@ CLAIMS = {
          'DESIGN.md §7 C18'),
 }
 NA_REASONS = {
- 'C02': 'not claimed yet: the technique applies (escrow-split invariant over the hand-written model), the executable monitor escrowSplit already runs on model and implementation states in every correspondence run, but the inductive proof (Hub/Props/C02.lean) is not finished, so no theorem decides the property yet',
 }
 NOTE = 'trusted base: Lean kernel; axioms propext/Classical.choice/Quot.sound only; translator (T-gen) and correspondence harness (T-corr); hand-written models of SDK dependencies (see DESIGN.md §9); hub keeper code is modelled by hand and tied by differential execution'
 
